@@ -284,9 +284,17 @@ func rhDiffRun(f int, maxItems []int, mode int) {
 	rcR := &cdiRec{}
 	gR := newGenFor(spec0R, rcR)
 	ps := symPlugins(len(maxItems))
-	probe := nondetString()
+	probes := []string{nondetString()}
+	if rhProbeKeys != nil {
+		probes = rhProbeKeys // concrete key set: compare at every key instead of an arbitrary one
+	}
 	for j := range maxItems {
-		cur := symItems(f, maxItems[j])
+		var cur []sItem
+		if rhItemsHook != nil {
+			cur = rhItemsHook(j)
+		} else {
+			cur = symItems(f, maxItems[j])
+		}
 		wfItems(f, cur)
 		if f == famMemLimit {
 			for _, it := range cur {
@@ -310,7 +318,9 @@ func rhDiffRun(f int, maxItems []int, mode int) {
 			gL := newGenFor(specL, rcL)
 			errL := gL.Adjust(copyAdjust(f, r.reply.adjust))
 			vassert(errL == nil, "combined-adjust-error")
-			cmpSpecs(f, specV, gL.Config, rcL, rcL, probe, "view")
+			for _, probe := range probes {
+				cmpSpecs(f, specV, gL.Config, rcL, rcL, probe, "view")
+			}
 		}
 	}
 	if mode == 3 {
@@ -318,7 +328,9 @@ func rhDiffRun(f int, maxItems []int, mode int) {
 		gL := newGenFor(spec0L, rcL)
 		errL := gL.Adjust(r.createContainerResponse().Adjust)
 		vassert(errL == nil, "combined-adjust-error")
-		cmpSpecs(f, gL.Config, gR.Config, rcL, rcR, probe, "combined")
+		for _, probe := range probes {
+			cmpSpecs(f, gL.Config, gR.Config, rcL, rcR, probe, "combined")
+		}
 	}
 	cover("compared")
 }
@@ -458,10 +470,22 @@ func H_C04_view3() { rhDiffRun(diffFams[instance()], []int{1, 1, 1}, 4) }
 // H_C03_env22: environment, two plugins with <=2 items each (e.g. two variables set by the first plugin,
 // both removed by the second).
 //verif:property C03
+//verif:tier thorough
 //verif:cut (*github.com/containerd/nri/pkg/runtime-tools/generate.Generator).sortMounts => verifNoSort
 //verif:replay-with-cuts
 //verif:expect-cover compared
 func H_C03_env22() { rhDiffRun(famEnv, []int{2, 2}, 3) }
+
+// H_C03_env22q: as H_C03_env22 with an original container that has no environment.
+//verif:property C03
+//verif:tier quick
+//verif:cut (*github.com/containerd/nri/pkg/runtime-tools/generate.Generator).sortMounts => verifNoSort
+//verif:replay-with-cuts
+//verif:expect-cover compared
+func H_C03_env22q() {
+	rhNoOriginal = true
+	rhDiffRun(famEnv, []int{2, 2}, 3)
+}
 
 // verifNoSort replaces Generator.sortMounts in the differential harnesses: the comparison is keyed by
 // destination, the ordering of mounts is decided under C13 (natively the real function runs).
@@ -493,3 +517,127 @@ func assumeNamedOriginal(f int, c *Container) {
 		}
 	}
 }
+
+// ---- chains of sets and removals over two concrete keys ----
+
+var chainFams = [...]int{famAnnotation, famEnv, famMount, famDevice}
+var chainKeys = [...][2]string{{"ka", "kb"}, {"KA", "KB"}, {"/a", "/b"}, {"/dev/a", "/dev/b"}}
+
+// chainItems: what one plugin does, out of 7 patterns over the keys a and b of family index fi:
+// nothing | set a | remove a | remove a and set a | set b | remove b | remove a and set b. Values are
+// distinct constants.
+func chainItems(fi int) []sItem {
+	a, b := chainKeys[fi][0], chainKeys[fi][1]
+	set := func(k string) sItem {
+		chainCtr++
+		return sItem{key: k, val: "value" + itoa(chainCtr)} // distinct concrete values: a stale or foreign value shows
+	}
+	rem := func(k string) sItem { return sItem{key: "-" + k} }
+	n := 7
+	if chainOneKey {
+		n = 4
+	}
+	switch choose(n) {
+	case 1:
+		return []sItem{set(a)}
+	case 2:
+		return []sItem{rem(a)}
+	case 3:
+		return []sItem{rem(a), set(a)}
+	case 4:
+		return []sItem{set(b)}
+	case 5:
+		return []sItem{rem(b)}
+	case 6:
+		return []sItem{rem(a), set(b)}
+	}
+	return nil
+}
+
+var chainCtr int
+var chainOneKey bool // only the patterns over key a
+var rhProbeKeys []string
+
+func rhChainRun(fi int, plugins int, mode int) {
+	rhItemsHook = func(int) []sItem { return chainItems(fi) }
+	rhProbeKeys = chainKeys[fi][:]
+	rhConcreteNames = true
+	rhOrigHook = func() []sItem {
+		k := 0
+		if !chainOneKey {
+			k = choose(2)
+		}
+		it := sItem{key: chainKeys[fi][k], val: "original"}
+		if chainFams[fi] == famEnv {
+			it.key = it.key + "=" + it.val
+		}
+		return []sItem{it}
+	}
+	counts := make([]int, plugins)
+	rhDiffRun(chainFams[fi], counts, mode)
+}
+
+// H_C03_chain3q: three plugins, each doing one of four things to one fixed key (nothing / set / remove /
+// remove+set) of annotations, env, mounts or devices, original container with or without that key: all
+// conflict-free chains such as remove - set - remove or remove+set followed by a lone removal.
+//verif:property C03
+//verif:instances 4
+//verif:cut (*github.com/containerd/nri/pkg/runtime-tools/generate.Generator).sortMounts => verifNoSort
+//verif:replay-with-cuts
+//verif:expect-cover compared
+func H_C03_chain3q() {
+	chainOneKey = true
+	rhChainRun(instance(), 3, 3)
+}
+
+// H_C03_chain2q: two plugins, seven patterns over two fixed keys (also: set b, remove b, remove a and set b).
+//verif:property C03
+//verif:instances 4
+//verif:cut (*github.com/containerd/nri/pkg/runtime-tools/generate.Generator).sortMounts => verifNoSort
+//verif:replay-with-cuts
+//verif:expect-cover compared
+func H_C03_chain2q() { rhChainRun(instance(), 2, 3) }
+
+// H_C03_chain3: three plugins, seven patterns over two keys.
+//verif:property C03
+//verif:instances 4
+//verif:tier thorough
+//verif:cut (*github.com/containerd/nri/pkg/runtime-tools/generate.Generator).sortMounts => verifNoSort
+//verif:replay-with-cuts
+//verif:expect-cover compared
+func H_C03_chain3() { rhChainRun(instance(), 3, 3) }
+
+// H_C04_chain3q / chain2q / chain3: the same chains for what each later plugin is shown.
+//verif:property C04
+//verif:instances 4
+//verif:cut (*github.com/containerd/nri/pkg/runtime-tools/generate.Generator).sortMounts => verifNoSort
+//verif:replay-with-cuts
+//verif:expect-cover compared
+func H_C04_chain3q() {
+	chainOneKey = true
+	n := 3
+	if instance() == 0 {
+		// annotations: every step re-applies the combined adjustment through three map loops of the
+		// generator, whose iteration orders are all explored: two plugins only (stated bound)
+		n = 2
+	}
+	rhChainRun(instance(), n, 4)
+}
+
+// H_C04_chain2q: see H_C03_chain2q (annotations: thorough tier only).
+//verif:property C04
+//verif:instances 4
+//verif:quick-instances 1 2 3
+//verif:cut (*github.com/containerd/nri/pkg/runtime-tools/generate.Generator).sortMounts => verifNoSort
+//verif:replay-with-cuts
+//verif:expect-cover compared
+func H_C04_chain2q() { rhChainRun(instance(), 2, 4) }
+
+// H_C04_chain3: see H_C03_chain3.
+//verif:property C04
+//verif:instances 4
+//verif:tier thorough
+//verif:cut (*github.com/containerd/nri/pkg/runtime-tools/generate.Generator).sortMounts => verifNoSort
+//verif:replay-with-cuts
+//verif:expect-cover compared
+func H_C04_chain3() { rhChainRun(instance(), 3, 4) }
